@@ -4,7 +4,7 @@
 From SF Require Import Model.Bytes Model.F64 Model.ShapeType Model.Shapes Model.Res Model.Encode Model.F64Arith
   Model.Construct Model.Writer Model.Prog Model.Decode Model.Reader Spec.Esri Spec.Denote Spec.Layout.
 From SF Require Import Proofs.ReaderSeq Proofs.WriterInv Proofs.EncodeRef Proofs.LayoutConf Proofs.RoundTrip Proofs.OnRead
-  Proofs.IndexReader Proofs.IndexFiles.
+  Proofs.IndexReader Proofs.IndexFiles Proofs.PolygonCtor Proofs.F64Exact.
 From SF Require Import Properties.C02.
 Open Scope Z_scope.
 
@@ -94,6 +94,20 @@ Proof.
   intros d b rings. rewrite on_read_roles. f_equal. apply map_ext. intros r. rewrite ring_role_norm. reflexivity.
 Qed.
 Print Assumptions C01_roles.
+
+(** ...and for a polygon obtained from a public constructor whose rings lie in
+    the exact domain (Proofs/F64Exact.v) with non-zero exact area, the role
+    re-derived on reading is the role the polygon was built with: roles are kept. *)
+Theorem C01_roles_kept : forall d rings b rs,
+  mk_polygon d rings = Ok (SPolygon d b rs) -> Forall (exact_nonzero d) rings ->
+  on_read (SPolygon d b rs) = SPolygon d (clean_box d b) (map (fun r => (fst r, map (norm_pt d) (snd r))) rs).
+Proof.
+  intros d rings b rs H Hall. rewrite C01_roles. f_equal.
+  pose proof (mk_polygon_rings d rings _ H) as Hr. cbn [rings_of] in Hr. subst rs.
+  rewrite !map_map. apply map_ext_in. intros r Hin. rewrite Forall_forall in Hall.
+  rewrite (stored_role_exact d r (Hall r Hin)). reflexivity.
+Qed.
+Print Assumptions C01_roles_kept.
 
 (** Non-vacuity: a PolygonM file with a NaN measure; the model reader run on the writer's bytes. *)
 Definition ex_nan : f64 := 9221120237041090560.
